@@ -371,6 +371,62 @@ FAMILIES = {
         },
         'quick_mutations': ['setmin', 'setmax', 'tmax'],
     },
+    # datatype OBJECTS shared by the declarations of several unrelated classes (module level constants of a driver), passed to
+    # Parameter(...) with and without datatype property keywords, to Command(argument=, result=); container parameters whose
+    # member properties are set through the parameter (keyword, subclass override, configuration)
+    'shared': {
+        'prelude': [],
+        'constants': {
+            'PERCENT': ['double', {'min': 0, 'max': 100, 'unit': '%'}],
+            'TRACE': ['array', ['double', {}], 0, 16],
+        },
+        'classes': {
+            'Va': {'bases': ['Module'], 'body': {
+                'opening': ['P', {'description': 'valve opening', 'datatype': ['shared', 'PERCENT'], 'default': 0, 'readonly': False}],
+            }},
+            'He': {'bases': ['Module'], 'body': {
+                'power': ['P', {'description': 'heater power', 'datatype': ['shared', 'PERCENT'], 'max': 5, 'default': 0,
+                                'readonly': False}],
+            }},
+            'Hu': {'bases': ['Module'], 'body': {
+                'level': ['P', {'description': 'level', 'datatype': ['shared', 'PERCENT'], 'unit': 'ppm', 'default': 0}],
+                'run': ['C', {'argument': ['shared', 'PERCENT'], 'result': ['shared', 'PERCENT'], 'description': 'run'}, 'echo'],
+            }},
+            'Sp': {'bases': ['Module'], 'body': {
+                'spectrum': ['P', {'description': 'intensities', 'datatype': ['array', ['double', {}], 0, 16], 'unit': 'cts', 'min': 0,
+                                   'default': []}],
+                'window': ['P', {'description': 'window', 'datatype': ['array', ['double', {'min': 0, 'max': 2000}], 2, 2],
+                                 'default': [0, 0], 'readonly': False}],
+                'image': ['P', {'description': 'nested', 'datatype': ['array', ['array', ['double', {}], 0, 2], 0, 2], 'unit': 'px',
+                                'default': []}],
+            }},
+            'Sp2': {'bases': ['Sp'], 'body': {'spectrum': ['P', {'max': 100}], 'window': ['P', {'unit': 'nm'}]}},
+            'Un': {'bases': ['Module'], 'body': {
+                'trace': ['P', {'description': 'a trace', 'datatype': ['shared', 'TRACE'], 'default': []}],
+                'pair': ['P', {'description': 'tuple with an array', 'datatype': ['tuple', [['int', 0, 3], ['array', ['double', {}], 0, 2]]],
+                               'default': [0, []]}],
+            }},
+            'Tr': {'bases': ['Module'], 'body': {
+                'trace': ['P', {'description': 'another trace', 'datatype': ['shared', 'TRACE'], 'unit': 'V', 'maxlen': 4, 'default': []}],
+            }},
+        },
+        'instantiable': ['Va', 'He', 'Hu', 'Sp', 'Sp2', 'Un', 'Tr'],
+        'configs': [
+            {},
+            {'opening': {'max': 50}},
+            {'power': {'unit': 'W'}},
+            {'window': {'unit': 'nm', 'max': 1500}, 'spectrum': {'max': 1000}},
+            {'trace': {'max': 10}},
+        ],
+        'configs_for': {'Va': [0, 1], 'He': [0, 2], 'Hu': [0], 'Sp': [0, 3], 'Sp2': [0, 3], 'Un': [0, 4], 'Tr': [0, 4]},
+        'quick_configs': [0, 1, 3, 4],
+        'mutations': {
+            'omax': {'needs': ['opening'], 'op': ['setprop', 'opening', [], 'max', 30]},
+            'tmin': {'needs': ['trace'], 'op': ['setprop', 'trace', [], 'min', -1]},
+            'wunit': {'needs': ['window'], 'op': ['setprop', 'window', [], 'unit', 'um']},
+        },
+        'quick_mutations': ['omax', 'tmin'],
+    },
     # main unit, status enum extension, Limit parameters (check_ functions are attached to the defining class)
     'units': {
         'prelude': [],
@@ -524,7 +580,15 @@ def registries():
     """the module-global registries of frappy a class definition can write to (wrapperClasses is keyed by class: by design)"""
     from frappy import params, rwhandler
     from frappy.lib import generalConfig
-    return {'PREDEFINED_ACCESSIBLES': sorted(params.PREDEFINED_ACCESSIBLES),
+    from frappy import datatypes
+
+    def subclasses(c):
+        for sc in c.__subclasses__():
+            yield sc
+            yield from subclasses(sc)
+    dtprops = sorted((c.__module__ + '.' + c.__name__, sorted(c.propertyDict)) for c in set(subclasses(datatypes.DataType)))
+    return {'propertyDict of the DataType classes': dtprops,
+            'PREDEFINED_ACCESSIBLES': sorted(params.PREDEFINED_ACCESSIBLES),
             'rwhandler.Handler.method_names': len(rwhandler.Handler.method_names),
             'generalConfig.defaults': sorted(generalConfig.defaults)}
 
@@ -562,6 +626,8 @@ class World:
         self.cfgobjs = {}
         self.cfgsnap = {}
         self.registry_changes = []
+        # the datatype objects several declarations of the program share (fresh ones for every program)
+        self.constants = {n: self.G.dt(spec) for n, spec in self.fam.get('constants', {}).items()}
         for cid in self.fam['prelude']:
             self.define(cid)
 
@@ -580,6 +646,8 @@ class World:
         DIRTY[0] = True
         self.transitions += 1
         before = registries()
+        self.G.SHARED.clear()
+        self.G.SHARED.update(self.constants)
         try:
             self.env[cid] = self.G.make_class(cid, self.fam['classes'][cid], self.env)
         except Exception as e:
@@ -722,6 +790,10 @@ class World:
         for pn, po in getattr(cls, 'propertyDict', {}).items():
             props.append([pn, repr(po.default), repr(po.value), po.mandatory, po.extname])
         return {'export': export, 'props': props, 'own': own}
+
+    def observe_constant(self, name):
+        """a datatype object the program's declarations share: what the programmer wrote must stay what it is"""
+        return {'datainfo': dtexp(self.constants[name])}
 
     def observe_inst_pure(self, k):
         inst = self.insts[k]
@@ -944,6 +1016,8 @@ def canon(obs):
 
 def alone_steps(family, ent):
     fam = FAMILIES[family]
+    if ent[0] == 'const':
+        return []
     if ent[0] == 'class':
         return [['def', c] for c in chain(fam, ent[1])]
     _, cid, cfgid, muts = ent
@@ -964,7 +1038,9 @@ def alone_observe(family, ent):
         w.run(alone_steps(family, ent))
         if w.deferr:
             raise RuntimeError(f'menu error: class chain of {ent!r} can not be defined alone: {w.deferr}')
-        if ent[0] == 'class':
+        if ent[0] == 'const':
+            obs = w.observe_constant(ent[1])
+        elif ent[0] == 'class':
             obs = w.observe_class(ent[1])
         else:
             obs = w.observe_inst(0)
@@ -1154,6 +1230,8 @@ def relation(world, steps, ent):
     """how the differing entity relates to the subject of the last step"""
     last = steps[-1] if steps else ['prelude']
     fam = world.fam
+    if ent[0] == 'const':
+        return 'datatype-object-passed-by-the-programmer'
     if last[0] == 'def':
         subj = last[1]
         if ent[0] == 'class':
@@ -1185,8 +1263,10 @@ def evaluate(family, steps, part, ref, parent=None):
         subject = None
         if last[0] == 'mut':
             subject = ('inst', last[1])
-        ents = [('class', cid) for cid in world.env]
+        ents = [('const', n) for n in world.constants] + [('class', cid) for cid in world.env]
         obs = {}
+        for n in world.constants:
+            obs[('const', n)] = canon(world.observe_constant(n))
         for cid in world.env:
             obs[('class', cid)] = canon(world.observe_class(cid))
         pure = [world.observe_inst_pure(k) for k in range(len(world.insts))]
@@ -1202,8 +1282,8 @@ def evaluate(family, steps, part, ref, parent=None):
             obs[ent] = canon({'pure': pure[k], 'impure': impure[k]})
         summary = {'obs': {}, 'aliases': set(), 'nclasses': len(world.env), 'ninsts': len(world.insts)}
         for ent in ents:
-            if ent[0] == 'class':
-                key = ('class', ent[1])
+            if ent[0] in ('class', 'const'):
+                key = (ent[0], ent[1])
             else:
                 inst = world.insts[ent[1]]
                 key = ('inst', inst['cid'], inst['cfgid'], tuple(inst['muts']))
@@ -1271,6 +1351,8 @@ def norm_alias(path):
 
 
 def describe_entity(world, ent):
+    if ent[0] == 'const':
+        return f'the datatype object {ent[1]} = {world.fam["constants"][ent[1]]} used in the declarations of several classes'
     if ent[0] == 'class':
         return f'class {ent[1]}'
     inst = world.insts[ent[1]]
@@ -1433,7 +1515,7 @@ def run(ctx):
                 'requests executed; traces = entity observations compared with the reference' % (MAX_INSTANCES, json.dumps(menus)))
     ctx.coverage.update(bound_completed='; '.join(f'{f}: ' + ', '.join(f'{v} menus to {d} steps' for v, d, _m in pl[f]) for f in FAMILIES),
                         families={f: {'classes': list(FAMILIES[f]['classes']), 'prelude': FAMILIES[f]['prelude']} for f in FAMILIES})
-    ctx.assume('class menus, configurations and mutations outside the eight families are not covered; classes of different families '
+    ctx.assume('class menus, configurations and mutations outside the nine families are not covered; classes of different families '
                'are never combined in one program',
                'prelude classes of the mixin family are defined in a fixed order before the first step',
                'the reference ("alone") build runs in a child forked from a process that imported frappy but never defined a menu class')
